@@ -72,6 +72,12 @@ class JobModel:
                 d["p_nested"] = {"a": [1, 2.5, {"b": pool_str[int(u * len(pool_str))]}], "c": [[], {}], "d": None if u < 0.5 else True}
             if "numpy" in pl:
                 d["p_np"] = [np.float32(0.5), np.int64(7), np.bool_(u < 0.5), np.float64(u)][int(u * 4)]
+                if int(u * 4) == 1:
+                    # integer scalars of several widths, some beyond 2**53 (not representable as a double:
+                    # a conversion that detours through float alters them)
+                    pool_int = [np.int64(7), np.int64(2 ** 53 + 1), np.int64(-(2 ** 62) - 3), np.uint64(2 ** 63 - 25),
+                                np.int32(-5), np.uint8(200), np.int64(1758931200123456789)]
+                    d["p_np"] = pool_int[int(hfloat(self.table_seed, "npint", hk, level) * len(pool_int))]
             if "cr" in pl and u < 0.3:
                 d["p_cr"] = "cr\rlf"  # a carriage return inside a string value
             if "inf" in pl:
